@@ -35,6 +35,16 @@ claimed = {
    note="Transaction store only (address-manager part of C10 not built). memdb write-failure model; single fault per operation.",
    technique="SSA symbolic execution + SMT, symbolic fault position, twin-execution comparison",
    design="5 C10"),
+ "C19": dict(
+   text="Symbolic execution of the real migration.Upgrade/upgrade/VersionsToApply/GetLatestVersion (sort.Slice with the real less) over a harness manager whose version table has SYMBOLIC uint32 numbers in any order (length <=3 quick, 4 thorough), nil migrations, a migration failing at a symbolic number, symbolic stored version and optional SetVersion failure: the solver decides, for all numbers at once, that exactly the pending migrations run once in ascending order, the latest version is recorded, failure leaves the version, and a newer stored version is refused untouched. Second part: the real wtxmgr.MigrationManager/Open over memdb with symbolic stored version and a write fault at a symbolic position inside the upgrade transaction.",
+   note="Table length <=4. waddrmgr's manager is not run with symbolic versions.",
+   technique="SSA symbolic execution + SMT bounded model checking over symbolic version numbers",
+   design="5 C19"),
+ "C07": dict(
+   text="Symbolic execution of NewUnsignedTransaction, EstimateVirtualSize, FeeForSerializeSize, IsDustOutput/mempool dust code, txscript classifiers and wire's size code with SYMBOLIC fee rate, coin amounts, output amounts and signature/witness lengths (length-only byte slices): the solver decides value conservation, fee >= rate x real signed vsize, fee <= rate x worst-case estimate + dust threshold, no zero/dust change, and insufficient-funds only when the coins cannot cover outputs + required fee. Output counts 0,1,2,251,252,253 (thorough 254,300); all 4 coin kinds, 4 change kinds.",
+   note="Found and fixed two defects (see known_findings.json). Arithmetic kernels (rate*size/1000, value*1000/threshold) are decided in an integer encoding justified per query by interval analysis; signer sizes are assumptions; signing is not run.",
+   technique="SSA symbolic execution + SMT (bit-vector and interval-justified integer encoding), replay of counterexamples",
+   design="5 C07"),
 }
 
 not_applicable = {
